@@ -16,6 +16,8 @@ QUICK = [
     ("R0/W0,S/W0,D0", "0=R1,D1"),        # callback registers (inline) and destroys another one
     ("S,R0,D0/S", "0=S"),                # inline execution inside registration, nested request_stop
     ("R0,R1,R2/W2,S,D2/W2,D1", "2=D0/1=Q"),
+    ("S,R0", "0=D0,Q"),                  # registered after the stop: inline, destroys itself from inside, on the stopping thread
+    ("S/R0", "0=D0,Q"),                  # ... on another thread (or dequeued by the notifier if it registers first)
 ]
 THOROUGH = QUICK + [
     ("R0,R1,D0,D1/S/S", "0=Q/1=Q"),
@@ -26,6 +28,8 @@ THOROUGH = QUICK + [
     ("R0,R1/W1,S,Q/W1,D0/W1,D1", "0=Q/1=Q"),
     ("R0,S,D0/R1,S,D1/R2,S,D2", "0=Q/1=Q/2=Q"),
     ("R0,R1,R2,D2,D1,D0/S", "-"),
+    ("S/R0/R1", "0=D0/1=D1,S"),
+    ("R1,S/W1,R0", "0=D0,R2,D2/1=Q"),
 ]
 
 def _wf(prog):
@@ -126,6 +130,16 @@ TWO_THOROUGH = TWO_QUICK + [
     ("A,R0,D0/s/U", "0=Q"),
 ]
 
+def _two_programs(tier, mode):
+    progs = TWO_QUICK if tier == "quick" else TWO_THOROUGH
+    if mode != "fused":
+        # the adapters hand the inner token out of subscribe(): clients can use it only after A
+        progs = [(a, b) for a, b in progs if a.split("/")[0].split(",")[0] in ("A", "s")]
+        progs = [("A,R0,D0/s,Q", "0=Q")] + progs
+    if mode == "adapter_dm" and tier == "quick":
+        progs = progs[:3]
+    return [(a, b, mode) for a, b in progs]
+
 class TwoSourceInner(StopSource):
     """events of the inner source; forwarded request_stop calls resolved after the fact"""
     handler = "stopsource_in"; drop_rs = True
@@ -135,9 +149,9 @@ class TwoSourceInner(StopSource):
         self.mode = mode
         self.name = "stop_source/%s-inner" % mode
     def programs(self, tier):
-        progs = TWO_QUICK if tier == "quick" else TWO_THOROUGH
+        progs = _two_programs(tier, self.mode)
         assert all(_wf(p) for p in progs)
-        return [(a, b, self.mode) for a, b in progs]
+        return progs
     def model_args(self, prog):
         ths = []
         for th in prog[0].split("/"):
@@ -184,8 +198,7 @@ class TwoSourceUp(Unit):
         self.mode = mode
         self.name = "stop_source/%s-upstream" % mode
     def programs(self, tier):
-        progs = TWO_QUICK if tier == "quick" else TWO_THOROUGH
-        return [(a, b, self.mode) for a, b in progs]
+        return _two_programs(tier, self.mode)
     def model_args(self, prog):
         mp = {"s": "S", "q": "Q", "A": "R9", "U": "D9"}
         ths = []
